@@ -130,10 +130,15 @@ func (f Float) MarshalJSON() ([]byte, error) {
 
 	// When decimal place is missing, add it. This only happens
 	// when the number is 0.
-	if num[1] != '.' {
-		num = append(num[0:3], num[1:]...)
-		num[1] = '.'
-		num[2] = '0'
+	// ensure there is a fractional part after the first digit, taking
+	// into account that negative numbers start with a minus sign.
+	d := 0
+	if num[0] == '-' {
+		d = 1
+	}
+	if num[d+1] != '.' {
+		rest := append([]byte{'.', '0'}, num[d+1:]...)
+		num = append(num[:d+1], rest...)
 	}
 
 	// Split into two parts
